@@ -21,6 +21,16 @@ pub enum DocOp {
     Circle { cx: f64, cy: f64, r: f64, cmyk: [f64; 4] },
     Image { name: String, w: u32, h: u32, gray: bool, seed: u64, x: f64, y: f64, dw: f64, dh: f64 },
     Info { title: Option<String>, author: Option<String>, subject: Option<String>, keywords: Option<String> },
+    /// fill/stroke opacity (an ExtGState resource)
+    Opacity { fill: f64, stroke: f64 },
+    Pattern { name: String, step: f64 },
+    Shading { name: String, x0: f64, y0: f64, x1: f64, y1: f64, rgb0: [f64; 3], rgb1: [f64; 3] },
+    FormX { name: String, w: f64, h: f64 },
+    Note { x: f64, y: f64, contents: String },
+    /// AcroForm field with a widget on the current page: kind 0 text, 1 checkbox
+    Field { name: String, value: String, kind: u8, x: f64, y: f64 },
+    /// document outline: one item per title, pointing at page (index mod page count)
+    Outline { titles: Vec<String> },
 }
 
 #[derive(Clone, Debug, Serialize, Deserialize, PartialEq)]
@@ -118,6 +128,8 @@ pub struct GenProgOpts {
     pub images: bool,
     /// allow images up to 160x160 (files of 50-300 KiB)
     pub big_images: bool,
+    /// also use patterns, shadings, ExtGStates, form XObjects, annotations, form fields, outline
+    pub rich: bool,
 }
 
 pub fn gen_program(r: &mut Rng, o: &GenProgOpts) -> Program {
@@ -132,6 +144,7 @@ pub fn gen_program(r: &mut Rng, o: &GenProgOpts) -> Program {
     }
     let pages = 1 + r.usize_below(o.max_pages);
     let mut img_n = 0;
+    let mut rich_n = 0;
     for _ in 0..pages {
         let (w, h) = *r.pick(&[(595.0, 842.0), (612.0, 792.0), (842.0, 595.0), (300.0, 300.0), (612.0, 1008.0), (100.5, 200.25)]);
         ops.push(DocOp::NewPage { w, h, rotation: *r.pick(&[0, 0, 0, 90, 180, 270]) });
@@ -192,6 +205,35 @@ pub fn gen_program(r: &mut Rng, o: &GenProgOpts) -> Program {
             };
             ops.push(op);
         }
+        if o.rich {
+            let k = r.usize_below(5);
+            for j in 0..k {
+                let x = r2(r.below(w as u64) as f64);
+                let y = r2(r.below(h as u64) as f64);
+                rich_n += 1;
+                let op = match r.below(6) {
+                    0 => DocOp::Opacity { fill: *r.pick(&[0.25, 0.5, 0.75, 1.0]), stroke: *r.pick(&[0.3, 0.6, 1.0]) },
+                    1 => DocOp::Pattern { name: format!("P{}", rich_n), step: *r.pick(&[5.0, 10.0, 12.5]) },
+                    2 => DocOp::Shading {
+                        name: format!("Sh{}", rich_n),
+                        x0: x,
+                        y0: y,
+                        x1: r2(x + 50.0),
+                        y1: r2(y + 20.0),
+                        rgb0: [1.0, 0.0, r2(r.below(101) as f64 / 100.0)],
+                        rgb1: [0.0, r2(r.below(101) as f64 / 100.0), 1.0],
+                    },
+                    3 => DocOp::FormX { name: format!("Fm{}", rich_n), w: r2(10.0 + r.below(90) as f64), h: r2(10.0 + r.below(90) as f64) },
+                    4 => DocOp::Note { x, y, contents: gen_text(r, o.tricky_text) },
+                    _ => DocOp::Field { name: format!("field_{}_{}", rich_n, j), value: gen_text(r, false), kind: r.below(2) as u8, x, y },
+                };
+                ops.push(op);
+            }
+        }
+    }
+    if o.rich && r.chance(1, 2) {
+        let n = 1 + r.usize_below(4);
+        ops.push(DocOp::Outline { titles: (0..n).map(|_| gen_text(r, o.tricky_text)).collect() });
     }
     Program { ops }
 }
@@ -205,8 +247,11 @@ pub fn image_bytes(w: u32, h: u32, gray: bool, seed: u64) -> Vec<u8> {
 pub fn build_document(p: &Program) -> Result<Document, String> {
     let mut doc = Document::new();
     let mut cur: Option<Page> = None;
+    let mut fm: Option<oxidize_pdf::forms::FormManager> = None;
+    let mut outline: Option<Vec<String>> = None;
     for op in &p.ops {
         match op {
+            DocOp::Outline { titles } => outline = Some(titles.clone()),
             DocOp::Info { title, author, subject, keywords } => {
                 if let Some(t) = title {
                     doc.set_title(t.clone());
@@ -310,6 +355,56 @@ pub fn build_document(p: &Program) -> Result<Document, String> {
                         pg.add_image(name.clone(), img);
                         pg.draw_image(name, *x, *y, *dw, *dh).map_err(|e| format!("draw_image: {}", e))?;
                     }
+                    DocOp::Opacity { fill, stroke } => {
+                        let g = pg.graphics();
+                        g.set_fill_opacity(*fill);
+                        g.set_stroke_opacity(*stroke);
+                        g.rect(10.0, 10.0, 20.0, 20.0);
+                        g.fill_stroke();
+                    }
+                    DocOp::Pattern { name, step } => {
+                        use oxidize_pdf::graphics::{PaintType, TilingPattern, TilingType};
+                        let pat = TilingPattern::new(name.clone(), PaintType::Colored, TilingType::ConstantSpacing, [0.0, 0.0, *step, *step], *step, *step)
+                            .with_content_stream(b"0 0 2 2 re f".to_vec());
+                        pg.add_pattern(name.clone(), pat).map_err(|e| format!("add_pattern: {}", e))?;
+                    }
+                    DocOp::Shading { name, x0, y0, x1, y1, rgb0, rgb1 } => {
+                        use oxidize_pdf::graphics::{AxialShading, ShadingDefinition};
+                        use oxidize_pdf::graphics::Point as ShPoint;
+                        let sh = AxialShading::linear_gradient(
+                            name.clone(),
+                            ShPoint::new(*x0, *y0),
+                            ShPoint::new(*x1, *y1),
+                            Color::rgb(rgb0[0], rgb0[1], rgb0[2]),
+                            Color::rgb(rgb1[0], rgb1[1], rgb1[2]),
+                        );
+                        pg.add_shading(name.clone(), ShadingDefinition::Axial(sh)).map_err(|e| format!("add_shading: {}", e))?;
+                        pg.graphics().paint_shading(name.clone());
+                    }
+                    DocOp::FormX { name, w, h } => {
+                        use oxidize_pdf::geometry::Rectangle;
+                        use oxidize_pdf::graphics::FormXObject;
+                        pg.add_form_xobject(name.clone(), FormXObject::new(Rectangle::from_position_and_size(0.0, 0.0, *w, *h)))
+                            .map_err(|e| format!("add_form_xobject: {}", e))?;
+                    }
+                    DocOp::Note { x, y, contents } => {
+                        use oxidize_pdf::annotations::TextAnnotation;
+                        use oxidize_pdf::geometry::Point;
+                        pg.add_annotation(TextAnnotation::new(Point::new(*x, *y)).with_contents(contents.clone()).to_annotation());
+                    }
+                    DocOp::Field { name, value, kind, x, y } => {
+                        use oxidize_pdf::forms::{CheckBox, FormManager, TextField, Widget, WidgetAppearance};
+                        use oxidize_pdf::geometry::{Point, Rectangle};
+                        let m = fm.get_or_insert_with(FormManager::new);
+                        let widget = Widget::new(Rectangle::new(Point::new(*x, *y), Point::new(*x + 120.0, *y + 18.0))).with_appearance(WidgetAppearance::default());
+                        let r = if *kind == 0 {
+                            m.add_text_field(TextField::new(name.clone()).with_value(value.clone()), widget.clone(), None)
+                        } else {
+                            m.add_checkbox(CheckBox::new(name.clone()), widget.clone(), None)
+                        }
+                        .map_err(|e| format!("add field: {}", e))?;
+                        pg.add_form_widget_with_ref(widget, r).map_err(|e| format!("add_form_widget_with_ref: {}", e))?;
+                    }
                     _ => {}
                 }
             }
@@ -317,6 +412,18 @@ pub fn build_document(p: &Program) -> Result<Document, String> {
     }
     if let Some(pg) = cur.take() {
         doc.add_page(pg);
+    }
+    if let Some(m) = fm {
+        doc.set_form_manager(m);
+    }
+    if let Some(titles) = outline {
+        use oxidize_pdf::structure::{Destination, OutlineItem, OutlineTree, PageDestination};
+        let n = doc.page_count().max(1);
+        let mut tree = OutlineTree::new();
+        for (i, t) in titles.iter().enumerate() {
+            tree.add_item(OutlineItem::new(t.clone()).with_destination(Destination::fit(PageDestination::PageNumber((i % n) as u32))));
+        }
+        doc.set_outline(tree);
     }
     Ok(doc)
 }
